@@ -248,7 +248,13 @@ pub(crate) mod libc_shim {
         if req == FICLONE as u64 {
             match super::clone_mode() {
                 super::CloneMode::Real => {}
-                super::CloneMode::Errno(e) => return fail(e),
+                super::CloneMode::Errno(e) => {
+                    // Keep the request visible to a syscall tracer without any effect:
+                    // the kernel rejects the bad source descriptor (EBADF); the caller
+                    // then sees the planned errno instead.
+                    let _ = ::libc::ioctl(fd, req as _, -1 as c_int);
+                    return fail(e);
+                }
                 super::CloneMode::Emulate => {
                     return match super::emulate_clone(arg as c_int, fd) {
                         Ok(()) => 0,
